@@ -235,6 +235,7 @@ class Server:
         self.cap = {'sim': self.sim}
         self.events = []          # (vtime, kind, data) harness-level event log
         self.advances = 0
+        self.adv_log = {}        # height -> daemon height cached when the block now at that height was advanced
         self.task_exc = None
 
     def log(self, kind, **data):
@@ -313,8 +314,11 @@ class Server:
 
             def advance_block(self_, block):
                 before = self_.state.height
+                cached = self_.daemon.cached_height()
                 r = super().advance_block(block)
                 if self_.state.height != before:
+                    # the daemon height the block processor knew when it decided whether to keep undo information for this block
+                    srv.adv_log[self_.state.height] = cached
                     srv.advances += 1
                     srv.events.append((-1, 'advanced', {'height': self_.state.height}))
                     fv = srv.flushvec
